@@ -7,9 +7,12 @@ CONSTANTS
   AllowAlias = "guard"
   TransVs <- TransVs_def
   ScaleFs <- ScaleFs_q
-  RotKs <- RotKs_q
+  RotKs <- RotKs_q2
   RotRefs <- RotRefs_q
-  PadSpecs <- Pad_q
+  RotPairs <- RotPairs_q2
+  Rich = FALSE
+  LastFresh = TRUE
+  PadSpecs <- Pad_q2
   Masks <- Masks_q
   Nums <- Nums_q
 CHECK_DEADLOCK FALSE
@@ -20,16 +23,16 @@ INVARIANT DF_SubregionsWellFormed
 INVARIANT DF_OwnValidity
 INVARIANT DF_Labels
 INVARIANT DF_RootsLive
-PROPERTY DF_RejectUnchanged
-PROPERTY DF_OperandsUnchanged
-PROPERTY DF_ValidityRule
-PROPERTY DF_SetValid
-PROPERTY DF_Update
-PROPERTY DF_Cellwise
-PROPERTY DF_PositionsKept
-PROPERTY DF_CellAligned
-PROPERTY DF_SelSubregions
-PROPERTY DF_Persist
-PROPERTY DF_InplaceEqualsCopy
-PROPERTY DF_InplaceReturnsSelf
-PROPERTY DF_AffineExact
+INVARIANT DF_RejectUnchanged_S
+INVARIANT DF_OperandsUnchanged_S
+INVARIANT DF_ValidityRule_S
+INVARIANT DF_SetValid_S
+INVARIANT DF_Update_S
+INVARIANT DF_Cellwise_S
+INVARIANT DF_PositionsKept_S
+INVARIANT DF_CellAligned_S
+INVARIANT DF_SelSubregions_S
+INVARIANT DF_Persist_S
+INVARIANT DF_InplaceEqualsCopy_S
+INVARIANT DF_InplaceReturnsSelf_S
+INVARIANT DF_AffineExact_S
